@@ -564,7 +564,7 @@ func C19(tier string) int {
 	}
 	res.Traces += nSeq
 	res.Sample(M{"part": "recording-signer", "op": "Deliver", "url": urls[1], "agent": agents[1], "checked": "Date/Host/User-Agent/Content-Type at signing time, key, key id, body bytes, headers unchanged until Do"})
-	res.Rule = fmt.Sprintf("(1) {Dereference, Deliver} x recording signer and real httpsig RSA-SHA256 / RSA-SHA512 / HMAC-SHA256 signers x 4 signed-header lists x 5 agents (two of them naming the library themselves) x 10 URLs x 4 payloads x 7 key ids (non-ASCII, empty fragment, upper case and a space, 800 characters, acct:, escapes) in turn: headers at signing time, key, key id, body bytes, nothing altered between signing and Do, real signatures verified with httpsig.NewVerifier on the request the client received; (2) every status 100..599 and a transport error for both operations, signer error; (3) BatchDeliver under a cooperative scheduler (sync overlay of pub/transport.go): recipients 0..3 with duplicates x per-recipient outcome {200, 202, 404, 500, client error, signer error}, batches of 5 and 6 (thorough: 9) recipients under four outcome patterns (all fail / all but the last / only the last / every second) explored without preemptions (thorough: one), two batches and a Dereference on one transport value, two / three concurrent Dereferences, two concurrent single Deliver calls, both together, and batch + single Deliver + Dereference (calls that share a signer), all interleavings within the preemption bound; oracle: no deadlock, one attempt per entry, error iff a failure and naming each, signer calls never overlap; (4) free-running -race pass; %d sequential cases", nSeq)
+	res.Rule = fmt.Sprintf("(1) {Dereference, Deliver} x recording signer and real httpsig RSA-SHA256 / RSA-SHA512 / HMAC-SHA256 signers x 4 signed-header lists x 5 agents (two of them naming the library themselves) x 10 URLs x 4 payloads x 7 key ids (non-ASCII, empty fragment, upper case and a space, 800 characters, acct:, escapes) in turn: headers at signing time, key, key id, body bytes, nothing altered between signing and Do, real signatures verified with httpsig.NewVerifier on the request the client received; (2) every status 100..599 and a transport error for both operations, signer error; (3) BatchDeliver under a cooperative scheduler (sync overlay of pub/transport.go): recipients 0..3 with duplicates x per-recipient outcome {200, 202, 404, 500, client error, signer error}, batches of 5 and 6 (thorough: 9) recipients under four outcome patterns (all fail / all but the last / only the last / every second) explored without preemptions (thorough: one for five recipients), two batches and a Dereference on one transport value, two / three concurrent Dereferences, two concurrent single Deliver calls, both together, and batch + single Deliver + Dereference (calls that share a signer), all interleavings within the preemption bound; oracle: no deadlock, one attempt per entry, error iff a failure and naming each, signer calls never overlap; (4) free-running -race pass; %d sequential cases", nSeq)
 	res.Assumptions = []string{"interleavings at the granularity of mutex / WaitGroup / channel / go / SignRequest / Do operations", "unsynchronised accesses between those points are looked for by the supplementary -race run only"}
 	return res.Finish()
 }
